@@ -331,6 +331,53 @@ pub fn es_f_tokens(max_tokens: usize) -> Family {
     Family::list(out)
 }
 
+/// ES-K: capacity boundaries of one symbol: for a symbol with c data codewords, fills of one
+/// character class at the lengths around which their densest encoding needs c codewords
+/// (digits: 2 per codeword; C40/Text/X12 base characters: 3 per 2; EDIFACT: 4 per 3; bytes: 1).
+pub fn es_k(c: usize) -> Family {
+    let mut out: Vec<Vec<u8>> = Vec::new();
+    let mut push = |ch: &[u8], lo: usize, hi: usize| {
+        for n in lo..=hi {
+            out.push(ch.iter().cycle().take(n).cloned().collect());
+        }
+    };
+    push(b"1", (2 * c).saturating_sub(3), 2 * c + 1);
+    let c40 = (c.saturating_sub(1)) * 3 / 2;
+    push(b"A", c40.saturating_sub(3), c40 + 3);
+    push(b"a", c40.saturating_sub(3), c40 + 3);
+    push(b"A>*", c40.saturating_sub(3), c40 + 3);
+    let edi = (c.saturating_sub(1)) * 4 / 3;
+    push(b"*A^ ", edi.saturating_sub(3), edi + 3);
+    push(&[0x80], c.saturating_sub(4), c);
+    push(b"~", c.saturating_sub(2), c + 1);
+    Family::list(out)
+}
+
+/// ES-J2: a long Base256 / C40 run at a length-field boundary, an EDIFACT-favouring middle part
+/// of every length 0..=40 and a short suffix of another class.
+pub fn es_j2() -> Family {
+    let mut out = Vec::new();
+    let mut prefixes: Vec<Vec<u8>> = Vec::new();
+    for l in [249usize, 250, 251] {
+        prefixes.push(vec![0x80; l]);
+        let mut p = b"1234".to_vec();
+        p.extend(vec![0xB7u8; l]);
+        prefixes.push(p);
+    }
+    let suffixes: Vec<&[u8]> = vec![b"", b"a", b"ab", &[0x80], b"1", b"12"];
+    for p in &prefixes {
+        for j in 0..=40 {
+            for sfx in &suffixes {
+                let mut v = p.clone();
+                v.extend(b"<?@[]^;:".iter().cycle().take(j));
+                v.extend_from_slice(sfx);
+                out.push(v);
+            }
+        }
+    }
+    Family::list(out)
+}
+
 /// Inputs named in DESIGN.md (witnesses of the defects, golden inputs of the repository's tests).
 pub fn named_inputs() -> Vec<Vec<u8>> {
     let mut v: Vec<Vec<u8>> = vec![
